@@ -1,5 +1,5 @@
 PROPS["C34"] = dict(
-    families=["hexcol"],
+    families=["hexcol", "hexenc"],
     label="spec-level: the theorems are about the executable Vec specification of the column API (Hexane/ColSpec.v); the slab / "
           "run-length / B-tree implementation is NOT modelled line by line and is tied to the specification differentially",
     level_text="Spec-level. Hexane/ColSpec.v is the Vec specification of hexane's column API (Column<T>, PrefixColumn<T>, "
